@@ -82,8 +82,20 @@ Fixpoint hist_model (bc : list (N * str)) (w : world) (es : list hev) : list hob
       XPub (c_users n') (c_dbs n') (cache_view (c_cache n')) :: hist_model bc (mkW (w_master w) n') r
   | HAuth salt name pw :: r =>
       let an := authenticate (bc_ok bc) salted_id (w_node w) salt name pw in
-      XAuth name pw (ares_code (fst an)) (cache_view (c_cache (snd an))) :: hist_model bc (mkW (w_master w) (snd an)) r
+      XAuth name pw (ares_code (fst an)) (ares_user (fst an)) (cache_view (c_cache (snd an))) :: hist_model bc (mkW (w_master w) (snd an)) r
   end.
+
+Lemma opt_n_eqb_refl a : opt_n_eqb a a = true.
+Proof. destruct a; cbn; [apply N.eqb_refl|reflexivity]. Qed.
+
+Lemma user_eqb_refl u : user_eqb u u = true.
+Proof.
+  unfold user_eqb. rewrite str_eqb_refl, N.eqb_refl, Bool.eqb_reflx. cbn [andb].
+  unfold privs_eqb. apply forallb_forall. intros dp _. apply opt_n_eqb_refl.
+Qed.
+
+Lemma list_user_eqb_refl l : list_eqb user_eqb l l = true.
+Proof. induction l as [|u l IH]; cbn [list_eqb]; [reflexivity|]. rewrite user_eqb_refl, IH. reflexivity. Qed.
 
 Lemma link_hist bc es : forall w,
   node_wf (bc_ok bc) salted_id w ->
@@ -98,15 +110,75 @@ Proof.
     pose proof (authenticate_keeps (bc_ok bc) salted_id (w_node w) salt name pw) as K. cbn zeta in K.
     destruct (authenticate (bc_ok bc) salted_id (w_node w) salt name pw) as [a n']. cbn [fst snd] in *.
     destruct K as [Ku [_ Kw]].
-    apply andb_true_iff. split.
+    apply andb_true_iff. split; [apply andb_true_iff; split|].
     + unfold auth_obs_ok. subst a. unfold auth_ref.
       destruct (find_user (c_users (w_node w)) name) as [ui|]; [|reflexivity].
       destruct (bc_ok bc (u_hash ui) pw) eqn:Eb; reflexivity.
+    + unfold ret_user_current. subst a. unfold auth_ref.
+      destruct (find_user (c_users (w_node w)) name) as [ui|] eqn:Ef; [|reflexivity].
+      destruct (bc_ok bc (u_hash ui) pw); cbn [ares_user]; [|reflexivity].
+      apply user_eqb_refl.
     + rewrite <- Ku. apply (IH (mkW (w_master w) n')). unfold node_wf. cbn [w_node]. apply Kw. exact Hwf.
 Qed.
 
 Lemma link_hist0 bc es : hist_spec bc [] (hist_model bc world0 es) = true.
 Proof. apply (link_hist bc es world0). apply world0_wf. Qed.
+
+(* ---------- sessions ---------- *)
+
+Definition step_unique (t : step) : Prop :=
+  match t with TSet m => names_unique (m_users m) | _ => True end.
+
+Lemma handle_query_executed bc secret c cr hq po ss db reach :
+  snd (fst (handle (bc_ok bc) salted_id true secret c salt0 (RQuery cr hq po ss db reach))) = 0 \/
+  snd (fst (handle (bc_ok bc) salted_id true secret c salt0 (RQuery cr hq po ss db reach))) = reach.
+Proof.
+  cbn [handle]. destruct (authenticate_mw (bc_ok bc) salted_id true secret c salt0 cr) as [[st|u] c1]; [left; reflexivity|].
+  unfold serve_query. destruct (negb hq); [left; reflexivity|]. destruct (negb po); [left; reflexivity|].
+  destruct (authorize_query (c_users c1) u ss db); cbn [fst snd]; auto.
+Qed.
+
+(* the model's record of ANY session (tables with unique user names) satisfies the executable
+   spec, except for the per-statement bootstrap clause *)
+Lemma link_seq bc secret ts : forall s,
+  cache_wf (bc_ok bc) salted_id (c_cache (q_node s)) ->
+  names_unique (m_users (q_master s)) -> Forall step_unique ts ->
+  seq_spec_g false bc secret (c_users (q_node s))
+             (combine ts (seq_run (bc_ok bc) salted_id true secret salt0 s ts)) = true.
+Proof.
+  induction ts as [|t ts IH]; intros s Hwf Hun Hts; cbn [seq_run combine seq_spec_g]; [reflexivity|].
+  inversion Hts as [|t' ts' Ht Hts']; subst.
+  destruct t as [m|rq|cr ss db x]; cbn [seq_step fst snd].
+  - apply (IH (mkQ m (swap (q_node s) m))); [apply swap_wf; exact Hwf|exact Ht|exact Hts'].
+  - pose proof (handle_req_ok (bc_ok bc) salted_id salted_id_inj secret (q_node s) salt0 rq Hwf) as H1.
+    pose proof (handle_keeps (bc_ok bc) salted_id salted_id_inj secret (q_node s) salt0 rq Hwf) as H2. cbn zeta in H2.
+    destruct (handle (bc_ok bc) salted_id true secret (q_node s) salt0 rq) as [o c1]. cbn [fst snd] in *.
+    destruct H2 as [Hu [_ Hw]].
+    assert (Hl : req_loose bc (c_users (q_node s)) secret (rq, o) = true) by (destruct rq, o; exact H1).
+    rewrite Hl. cbn [negb orb andb]. rewrite <- Hu. apply (IH (mkQ (q_master s) c1)); assumption.
+  - set (rq := RQuery cr true true ss db 1).
+    pose proof (handle_req_ok (bc_ok bc) salted_id salted_id_inj secret (q_node s) salt0 rq Hwf) as H1.
+    pose proof (handle_keeps (bc_ok bc) salted_id salted_id_inj secret (q_node s) salt0 rq Hwf) as H2. cbn zeta in H2.
+    destruct (handle (bc_ok bc) salted_id true secret (q_node s) salt0 rq) as [[st ex] c1]. cbn [fst snd] in *.
+    destruct H2 as [Hu [_ Hw]]. cbn [req_ok rq snd] in H1.
+    destruct (N.eqb_spec ex 0) as [->|Hne].
+    + cbn [fst snd]. rewrite H1. cbn [negb orb andb N.eqb]. rewrite Hu, list_user_eqb_refl. cbn [andb].
+      rewrite <- Hu. apply (IH (mkQ (q_master s) c1)); assumption.
+    + cbn [fst snd]. rewrite H1. cbn [negb orb andb].
+      destruct (N.eqb_spec ex 0) as [E|_]; [contradiction|].
+      pose proof (stmt_effect_sound (q_master s) x) as Heff.
+      pose proof (exec_stmt_unique (q_master s) x Hun) as Hun'.
+      destruct (exec_stmt (q_master s) x) as [ok m']. cbn [fst snd] in *.
+      destruct ok.
+      * cbn [swap c_users]. rewrite (Heff m' Hun eq_refl). cbn [andb].
+        apply (IH (mkQ m' (swap c1 m'))); [apply swap_wf; exact Hw|exact Hun'|exact Hts'].
+      * cbn [andb]. apply (IH (mkQ m' c1)); [exact Hw|exact Hun'|exact Hts'].
+Qed.
+
+Lemma link_seq0 bc secret ts :
+  Forall step_unique ts ->
+  seq_spec_g false bc secret [] (combine ts (seq_run (bc_ok bc) salted_id true secret salt0 seq0 ts)) = true.
+Proof. intros H. apply (link_seq bc secret ts seq0); [apply cache_wf_nil|constructor|exact H]. Qed.
 
 (* ---------- swap during Authenticate ---------- *)
 
